@@ -359,8 +359,9 @@ class DesignSpace:
             lower_bound=variable.lower_bound[dimensions],
             upper_bound=variable.upper_bound[dimensions],
         )
-        if name in self.__current_value:
-            self.set_current_variable(name, self.get_current_value(name)[dimensions])
+        self.normalize[name] = self.normalize[name][dimensions]
+        if self.__current_value.get(name) is not None:
+            self.set_current_variable(name, self.__current_value[name][dimensions])
 
         # Update the mapping from names to array indices
         name_reached = False
